@@ -1,6 +1,6 @@
 PROPS["C08"] = prop(
     "exploration",
-    "rapid-generated request histories with injected store faults, unloads and restarts; oracles: white-box cache==store comparison after every step, failed-request=no-store-change diff, reload-differential of desc/sub/tags/del/data answers across a restart; session 3: nested description updates under store failure (direction of the divergence in the signature), read-only flag vs stored state, P2P {del topic} keeps the peer's rows, store latency; after seeded round 6: credentials which become tags (harness validator required of accounts) confirmed and deleted while 'me' is loaded",
+    "rapid-generated request histories with injected store faults, unloads and restarts; oracles: white-box cache==store comparison after every step, failed-request=no-store-change diff, reload-differential of desc/sub/tags/del/data answers across a restart; session 3: nested description updates under store failure (direction of the divergence in the signature), read-only flag vs stored state, P2P {del topic} keeps the peer's rows, store latency; after seeded round 6: credentials which become tags (harness validator required of accounts) confirmed and deleted while 'me' is loaded; round 7: tag lists which normalise to something else (duplicates, one-character tags, the clearing tag)",
     "program = 3-4 sessions + prologue (group or channel, p2p, me) + 3-14 ops over every state-changing request kind, 12% preceded by fault(k); "
     "non-trivial = >=2 classes of acknowledged changes and >=1 of {unload, restart, fault, restart-probe}; distinct = FNV-64 of the program",
     "After every step every loaded topic's cached counters, owner, defaults, tags, public/trusted and per-subscriber modes, private, marks are compared with the store rows; a restart probe compares client-visible answers. Sampled.",
